@@ -4,7 +4,7 @@ import sys,os,shutil,json,glob,subprocess
 pid,mk,caught,needs=sys.argv[1:5]
 base=os.environ.get('SEEDBASE','/tmp/seed')
 src=f'{base}/{pid}/out/{mk}'
-dst=f'/verif/seeded/{pid}-'+('r2' if 'seed2' in base else '')+mk
+dst=f'/verif/seeded/{pid}-'+('r2' if 'seed2' in base else 'r3' if 'seed3' in base else '')+mk
 os.makedirs(dst,exist_ok=True)
 for f in glob.glob(src+'/*'):
     if os.path.isfile(f) and not f.endswith('.log'): shutil.copy(f,dst)
